@@ -153,3 +153,29 @@ Proof.
   split; [vm_compute; reflexivity|]. split; [reflexivity|].
   eexists. split; [reflexivity|]. split; [cbn; tauto | reflexivity].
 Qed.
+
+(* two [fractions] layers: the first gives the gram a per-unit entry that leaves `enabled` open, the
+   second - later - enables fractions for all units: the gram inherits it (a one-pass reading of the
+   layers, each on top of the previous ones only, would answer false) *)
+Definition fr_none : fractions :=
+  {| fr_all := None; fr_metric := None; fr_imperial := None; fr_quantity := []; fr_unit := [] |}.
+Definition w_frac : list units_file :=
+  [{| uf_default_system := None; uf_si := None;
+      uf_fractions := Some {| fr_all := None; fr_metric := None; fr_imperial := None; fr_quantity := [];
+                              fr_unit := [(s_g, FCustom {| fh_enabled := None; fh_accuracy := None;
+                                                            fh_max_den := Some 8; fh_max_whole := None |})] |};
+      uf_extend := None; uf_quantity := uf_quantity (hd (file_of []) w_good) |};
+   {| uf_default_system := None; uf_si := None;
+      uf_fractions := Some {| fr_all := Some (FToggle true); fr_metric := None; fr_imperial := None;
+                              fr_quantity := []; fr_unit := [] |};
+      uf_extend := None; uf_quantity := [] |}].
+
+Example fractions_later_layer_example :
+  match build cfg_new w_frac with
+  | Done (ROk c) =>
+      let r := fractions_config (c_fractions c) None Mass 4 in
+      fc_enabled r && (fc_max_den r =? 8)
+      && opt_eqb Nat.eqb (find_unit c s_g) (Some 4%nat)
+  | _ => false
+  end = true.
+Proof. vm_compute. reflexivity. Qed.
